@@ -64,14 +64,15 @@ fn c15_huff_read_bits() {
 //  * a valid end (0..=7 one-bits left)  =>  Ok(None): valid strings are accepted;
 //  * never a panic, whatever the window holds.
 // Which *invalid* ends are rejected is the business of the c15_huff_eof_* harnesses.
-// vp: props=C15,C06; tag=C15.huff.decode.symbol; kind=complete; tier=quick
-#[kani::proof]
-#[kani::unwind(16)]
-fn c15_huff_decode_next_symbol() {
-    let arr: [u8; WIN] = kani::any();
+fn decode_next_case<const N: usize>(max_base: u32) {
+    let arr: [u8; N] = kani::any();
     let n: usize = kani::any();
-    kani::assume(n <= WIN);
-    let (mut pos, start) = any_state();
+    kani::assume(n <= N);
+    let (mut pos, off) = any_state();
+    let base: u32 = kani::any();
+    kani::assume(base <= max_base);
+    pos.byte = base;
+    let start = base as usize * 8 + off;
     kani::assume(start <= 8 * n);
     let want = spec_huff_step(&arr[..n], start);
     let res = HPACK_STRING.decode_next(&mut pos, &arr[..n]);
@@ -91,9 +92,27 @@ fn c15_huff_decode_next_symbol() {
             }
         }
     }
-    kani::cover!(matches!(want, SpecHuffStep::Sym { len: 30, .. }) && start == 7);
-    kani::cover!(matches!(want, SpecHuffStep::Sym { len: 5, .. }) && n == 1);
-    kani::cover!(matches!(want, SpecHuffStep::End { pad_ok: true }) && n == 1 && start == 3);
+    kani::cover!(matches!(want, SpecHuffStep::Sym { len: 30, .. }) && off == 7 && base == max_base);
+    kani::cover!(matches!(want, SpecHuffStep::Sym { len: 5, .. }) && n == base as usize + 1);
+    kani::cover!(matches!(want, SpecHuffStep::End { pad_ok: true }) && n == base as usize + 1 && off == 3);
+}
+
+// vp: props=C15,C06; tag=C15.huff.decode.symbol; kind=complete; tier=quick
+#[kani::proof]
+#[kani::unwind(16)]
+fn c15_huff_decode_next_symbol() {
+    decode_next_case::<WIN>(0);
+}
+
+// vp: props=C15,C06; tag=C15.huff.decode.symbol.offset; kind=complete; tier=thorough
+// the same contract with the window 0, 1 or 2 bytes into a 7-byte input: evidence for the translation
+// invariance (in `byte` and `input.len()`) that carries the per-window result to any position of a long
+// string.  Complete for these three offsets; the invariance for larger offsets is read off the code
+// (read_bits and check_eof use `byte` only in `byte*8 + ..` and `byte + 1` compared with the length).
+#[kani::proof]
+#[kani::unwind(16)]
+fn c15_huff_decode_next_at_offset() {
+    decode_next_case::<7>(2);
 }
 
 /// A `Vec` that views the first `n` bytes of `arr` without allocating (Kani cannot afford allocation +
@@ -169,6 +188,33 @@ fn c15_huff_eof_eos_rejected() {
     let v = view_vec(&mut arr, n);
     let res = iter_step(&v, pos);
     assert!(matches!(res, Some(Err(_))), "C15.huff.eof.eos: EOS inside the string accepted");
+}
+
+// vp: props=C15,C06; tag=C15.huff.eof.tail; kind=complete; tier=quick
+// The part of the §5.2 rule that the pinned tree does enforce, kept as its own obligation so that a regression
+// is not hidden behind the three findings above: (a) fewer than 5 bits left (no code is that short) and not all
+// ones => error; (b) EOS followed by at least one more whole octet => error.
+#[kani::proof]
+#[kani::unwind(16)]
+fn c15_huff_eof_short_tail_and_eos() {
+    let mut arr: [u8; WIN] = kani::any();
+    let n: usize = kani::any();
+    kani::assume(n <= WIN);
+    let (pos, start) = any_state();
+    kani::assume(start <= 8 * n);
+    let avail = 8 * n - start;
+    let w = spec_window32(&arr[..n], start);
+    let short_tail = 1 <= avail && avail <= 4 && (w >> (32 - avail)) != (1u32 << avail) - 1;
+    let eos_then_more = avail >= 38 && (w >> 2) == 0x3fff_ffff;
+    kani::assume(short_tail || eos_then_more);
+    let want = spec_huff_step(&arr[..n], start);
+    assert!(want == SpecHuffStep::End { pad_ok: false } || want == SpecHuffStep::Eos);
+    kani::cover!(short_tail && avail == 4);
+    kani::cover!(short_tail && avail == 1);
+    kani::cover!(eos_then_more && start == 2);
+    let v = view_vec(&mut arr, n);
+    let res = iter_step(&v, pos);
+    assert!(matches!(res, Some(Err(_))), "C15.huff.eof.tail: bad tail / EOS accepted");
 }
 
 // vp: props=C15,C06; tag=C15.huff.iter; kind=complete; tier=quick
